@@ -345,3 +345,38 @@ Print Assumptions C06_format_decode_writer.
 Print Assumptions C06_format_decode_writer_enc.
 Print Assumptions C06_gcm_cipher_agrees.
 Print Assumptions C06_format_decode_writer_enc_gcm.
+
+(* ---------- Tie A level 1, work package cryptoT (tools/src2v3_crypto.py -> gen/Src3g.v): aesgcm.rs translated statement by
+   statement and proved EQUAL to Gcm.v for every key, nonce, associated data, object state and buffer; the one-shot theorem
+   carried onto the translated code ---------- *)
+From MLA Require SrcTie3Gcm SrcTie3CryptoEx.
+Theorem C06_tie_aesgcm_new_src : ltac:(let t := type of SrcTie3Gcm.aesgcm_new_src in exact t).
+Proof. exact SrcTie3Gcm.aesgcm_new_src. Qed.
+Print Assumptions C06_tie_aesgcm_new_src.
+Theorem C06_tie_aesgcm_encrypt_src : ltac:(let t := type of SrcTie3Gcm.aesgcm_encrypt_src in exact t).
+Proof. exact SrcTie3Gcm.aesgcm_encrypt_src. Qed.
+Print Assumptions C06_tie_aesgcm_encrypt_src.
+Theorem C06_tie_aesgcm_into_tag_src : ltac:(let t := type of SrcTie3Gcm.aesgcm_into_tag_src in exact t).
+Proof. exact SrcTie3Gcm.aesgcm_into_tag_src. Qed.
+Print Assumptions C06_tie_aesgcm_into_tag_src.
+Theorem C06_tie_aesgcm_decrypt_src : ltac:(let t := type of SrcTie3Gcm.aesgcm_decrypt_src in exact t).
+Proof. exact SrcTie3Gcm.aesgcm_decrypt_src. Qed.
+Print Assumptions C06_tie_aesgcm_decrypt_src.
+Theorem C06_tie_aesgcm_decrypt_unauth_src : ltac:(let t := type of SrcTie3Gcm.aesgcm_decrypt_unauth_src in exact t).
+Proof. exact SrcTie3Gcm.aesgcm_decrypt_unauth_src. Qed.
+Print Assumptions C06_tie_aesgcm_decrypt_unauth_src.
+Theorem C06_tie_encrypt_cur_lt_src : ltac:(let t := type of SrcTie3Gcm.encrypt_cur_lt_src in exact t).
+Proof. exact SrcTie3Gcm.encrypt_cur_lt_src. Qed.
+Print Assumptions C06_tie_encrypt_cur_lt_src.
+(* any split of a message into encrypt calls of the TRANSLATED code = the one-shot ciphertext and tag *)
+Theorem C06_gcm_incremental_oneshot_src : ltac:(let t := type of SrcTie3Gcm.gcm_incremental_oneshot_src in exact t).
+Proof. exact SrcTie3Gcm.gcm_incremental_oneshot_src. Qed.
+Print Assumptions C06_gcm_incremental_oneshot_src.
+Theorem C06_tie_crypto_consts_src : ltac:(let t := type of SrcTie3Ecies.crypto_consts_src in exact t).
+Proof. exact SrcTie3Ecies.crypto_consts_src. Qed.
+Print Assumptions C06_tie_crypto_consts_src.
+(* non-vacuity: SP 800-38D test cases 15 / 16 through the translated code (concrete AES-256 / GHASH) *)
+Check SrcTie3CryptoEx.src_gcm_tc16.
+Check SrcTie3CryptoEx.src_gcm_tc15.
+Check SrcTie3CryptoEx.src_gcm_dec_tc16.
+Check SrcTie3CryptoEx.src_gcm_unreachable_state_crashes.
